@@ -95,6 +95,7 @@ def export(path=None):
     from pyubx2.ubxvariants import VARIANTS
     from pyubx2.ubxmessage import UBXMessage
     from pynmeagps import NMEA_HDR
+    from pyubx2 import ubxtypes_decodes as dec
 
     types = sorted(
         {
@@ -125,6 +126,8 @@ def export(path=None):
         ],
         "storsize": [{"code": int(k), "size": int(v)} for k, v in cdb.UBX_CONFIG_STORSIZE.items()],
         "nmea_b2": sorted({h[1] for h in NMEA_HDR if len(h) == 2 and h[0] == 0x24}),
+        "gnsslist": [{"k": int(k), "v": str(v)} for k, v in getattr(dec, "GNSSLIST", {}).items()],
+        "fixtype": [{"k": int(k), "v": str(v)} for k, v in getattr(dec, "FIXTYPE", {}).items()],
         "nmea_hdr_other": [list(h) for h in NMEA_HDR if not (len(h) == 2 and h[0] == 0x24)],
     }
     if path:
